@@ -356,6 +356,19 @@ theorem member_iff (b : Builder) (e : Ep) :
       · exact Or.inl rfl
       · exact Or.inr (h8 hb)
 
+/-- Bridge to `pushType_sound`: an endpoint the builder serves is one the index considers worth a
+    push (`pushable`), provided the builder's "unhealthy endpoints allowed" agrees with the
+    endpoint's `SendUnhealthyEndpoints` flag (both are derived from the service by the registries).
+    Hence a `NoPush` update (every added endpoint is not pushable, `noPush_served_unchanged`) adds
+    nothing to any ClusterLoadAssignment. -/
+theorem member_pushable (b : Builder) (e : Ep) (hm : member b e = true)
+    (hc : b.unhealthyOk = true → e.health = unHealthy → e.sendUnh = true) : pushable e = true := by
+  have h := ((member_iff b e).mp hm).2.2.2.2.2.2.1
+  unfold pushable
+  by_cases hh : e.health = unHealthy
+  · simp [hc (h hh) hh]
+  · simp [hh]
+
 /-- Composition with part 1: what a proxy is served for `(service, namespace)` after any sequential
     history is determined by the abstract map, i.e. by the registries' latest reports. If two index
     states have the same shard list for the service, the ClusterLoadAssignments are equal. -/
